@@ -113,6 +113,56 @@ func (e *Engine) checkArrayIterators(n *Node, salt uint64) error {
 			return err
 		}
 	}
+	// read-only flavours with a mutation callback: same sequence; the callback stays silent while nothing is mutated
+	called := 0
+	cb := func(atree.Value) { called++ }
+	got, err = collectArr(func(fn atree.ArrayIterationFunc) error { return a.IterateReadOnlyWithMutationCallback(fn, cb) })
+	if err != nil {
+		return e.viol("%s IterateReadOnlyWithMutationCallback failed: %v", name, err)
+	}
+	if err := e.cmpSeq(name+" IterateReadOnlyWithMutationCallback", got, want); err != nil {
+		return err
+	}
+	drain := func(what string, it atree.ArrayIterator, err error, ro bool, want []MV) error {
+		if err != nil {
+			return e.viol("%s: creating the iterator failed: %v", what, err)
+		}
+		if it.CanMutate() == ro {
+			return e.viol("%s: CanMutate()=%v for readonly=%v", what, it.CanMutate(), ro)
+		}
+		var got []atree.Value
+		for {
+			v, err := it.Next()
+			if err != nil {
+				return e.viol("%s: Next failed: %v", what, err)
+			}
+			if v == nil {
+				break
+			}
+			got = append(got, v)
+			if len(got) > len(want) {
+				break
+			}
+		}
+		// an exhausted iterator stays exhausted
+		if v, err := it.Next(); err != nil || v != nil {
+			if len(got) <= len(want) {
+				return e.viol("%s: Next after the end returned (%v, %v)", what, v, err)
+			}
+		}
+		return e.cmpSeq(what, got, want)
+	}
+	itc, err := a.ReadOnlyIteratorWithMutationCallback(cb)
+	if err := drain(name+" ReadOnlyIteratorWithMutationCallback", itc, err, true, want); err != nil {
+		return err
+	}
+	lit, err := a.ReadOnlyLoadedValueIterator()
+	if err != nil {
+		return e.viol("%s ReadOnlyLoadedValueIterator failed: %v", name, err)
+	}
+	if err := drain(name+" ReadOnlyLoadedValueIterator (all loaded)", lit, nil, true, want); err != nil {
+		return err
+	}
 	// positional lookups agree
 	for _, i := range pickIdx(cnt, salt) {
 		v, err := a.Get(i)
@@ -131,15 +181,45 @@ func (e *Engine) checkArrayIterators(n *Node, salt uint64) error {
 		}
 	}
 	// ranges
+	collectIt := func(it atree.ArrayIterator, err error) ([]atree.Value, error) {
+		if err != nil {
+			return nil, err
+		}
+		var out []atree.Value
+		for {
+			v, err := it.Next()
+			if err != nil {
+				return out, err
+			}
+			if v == nil {
+				return out, nil
+			}
+			out = append(out, v)
+			if uint64(len(out)) > cnt {
+				return out, nil
+			}
+		}
+	}
 	for _, r := range pickRanges(cnt, salt) {
 		s, t := r[0], r[1]
-		for _, ro := range []bool{true, false} {
-			f := func(fn atree.ArrayIterationFunc) error { return a.IterateRange(s, t, fn) }
-			if ro {
-				f = func(fn atree.ArrayIterationFunc) error { return a.IterateReadOnlyRange(s, t, fn) }
+		for fl := 0; fl < 6; fl++ {
+			var got []atree.Value
+			var err error
+			switch fl {
+			case 0:
+				got, err = collectArr(func(fn atree.ArrayIterationFunc) error { return a.IterateRange(s, t, fn) })
+			case 1:
+				got, err = collectArr(func(fn atree.ArrayIterationFunc) error { return a.IterateReadOnlyRange(s, t, fn) })
+			case 2:
+				got, err = collectArr(func(fn atree.ArrayIterationFunc) error { return a.IterateReadOnlyRangeWithMutationCallback(s, t, fn, cb) })
+			case 3:
+				got, err = collectIt(a.RangeIterator(s, t))
+			case 4:
+				got, err = collectIt(a.ReadOnlyRangeIterator(s, t))
+			case 5:
+				got, err = collectIt(a.ReadOnlyRangeIteratorWithMutationCallback(s, t, cb))
 			}
-			got, err := collectArr(f)
-			what := fmt.Sprintf("%s range [%d,%d) of %d readonly=%v", name, s, t, cnt, ro)
+			what := fmt.Sprintf("%s range [%d,%d) of %d flavour=%d", name, s, t, cnt, fl)
 			if s > cnt || t > cnt {
 				var oob *atree.SliceOutOfBoundsError
 				if err == nil || !errors.As(err, &oob) || !isUser(err) {
@@ -161,6 +241,9 @@ func (e *Engine) checkArrayIterators(n *Node, salt uint64) error {
 				return err
 			}
 		}
+	}
+	if called != 0 {
+		return e.viol("%s: the mutation callback of a read-only iterator was invoked %d times although nothing was mutated", name, called)
 	}
 	e.Stats.Add("iterator_batteries", 1)
 	return nil
@@ -302,13 +385,43 @@ func (e *Engine) checkMapIterators(n *Node) error {
 	if err := checkVals(name+" IterateValues", vs); err != nil {
 		return err
 	}
+	// read-only flavours with mutation callbacks: same enumeration, callbacks silent while nothing is mutated
+	called := 0
+	cb := func(atree.Value) { called++ }
+	got, err = pairs(func(fn atree.MapEntryIterationFunc) error { return m.IterateReadOnlyWithMutationCallback(fn, cb, cb) })
+	if err != nil {
+		return e.viol("%s IterateReadOnlyWithMutationCallback failed: %v", name, err)
+	}
+	if err := checkPairs(name+" IterateReadOnlyWithMutationCallback", got); err != nil {
+		return err
+	}
+	ks, err = singles(func(fn atree.MapElementIterationFunc) error { return m.IterateReadOnlyKeysWithMutationCallback(fn, cb) })
+	if err != nil {
+		return e.viol("%s IterateReadOnlyKeysWithMutationCallback failed: %v", name, err)
+	}
+	if err := checkPairs(name+" IterateReadOnlyKeysWithMutationCallback", toKV(ks)); err != nil {
+		return err
+	}
+	vs, err = singles(func(fn atree.MapElementIterationFunc) error { return m.IterateReadOnlyValuesWithMutationCallback(fn, cb) })
+	if err != nil {
+		return e.viol("%s IterateReadOnlyValuesWithMutationCallback failed: %v", name, err)
+	}
+	if err := checkVals(name+" IterateReadOnlyValuesWithMutationCallback", vs); err != nil {
+		return err
+	}
 	// explicit iterator objects, mixing Next / NextKey / NextValue
-	for _, ro := range []bool{true, false} {
+	for fl := 0; fl < 4; fl++ {
+		ro := fl != 1
 		var it atree.MapIterator
-		if ro {
+		switch fl {
+		case 0:
 			it, err = m.ReadOnlyIterator()
-		} else {
+		case 1:
 			it, err = m.Iterator(cmp, hip)
+		case 2:
+			it, err = m.ReadOnlyIteratorWithMutationCallback(cb, cb)
+		case 3:
+			it, err = m.ReadOnlyLoadedValueIterator()
 		}
 		if err != nil {
 			return e.viol("%s creating iterator failed: %v", name, err)
@@ -349,8 +462,14 @@ func (e *Engine) checkMapIterators(n *Node) error {
 			}
 		}
 		if i != len(order) {
-			return e.viol("%s iterator (readonly=%v) yields %d entries, expected %d", name, ro, i, len(order))
+			return e.viol("%s iterator (flavour %d) yields %d entries, expected %d", name, fl, i, len(order))
 		}
+		if k, v, err := it.Next(); err != nil || k != nil || v != nil {
+			return e.viol("%s iterator (flavour %d): Next after the end returned (%v, %v, %v)", name, fl, k, v, err)
+		}
+	}
+	if called != 0 {
+		return e.viol("%s: a mutation callback of a read-only iterator was invoked %d times although nothing was mutated", name, called)
 	}
 	e.Stats.Add("iterator_batteries", 1)
 	return nil
